@@ -256,6 +256,8 @@ namespace
         op("scope{ depth=%d", depth);
         unsigned id_floor = t.sh.next_id;
         long     shrinks0 = t.shrinks;
+        auto     blocks0  = mlog().live.size(); // upstream blocks held when the scope begins
+        bool     shrink_requested = false;
         char*       first_addr = nullptr;
         std::size_t first_size = 0, first_align = 0;
         {
@@ -305,6 +307,7 @@ namespace
                     op("shrink_to_fit");
                     ta->shrink_to_fit();
                     ++t.shrinks;
+                    shrink_requested = true;
                 }
                 else
                     t.sh.sweep();
@@ -320,6 +323,14 @@ namespace
         t.sh.drop_if([&](char*, const shadow_ent& e) { return e.id >= id_floor; });
         t.sh.sweep(); // outer allocations untouched
         flag("unwind");
+        // a scope that asked for shrink_to_fit() returns, when it ends, every block that is not in use by an outer scope:
+        // no more upstream blocks are held than when it began (explicit stack only: the malloc log then holds nothing else)
+        if (shrink_requested && st && mlog().live.size() > blocks0)
+            viol("C05", "C05/" + kind + "/shrink-kept-blocks",
+                 "a temporary_allocator scope requested shrink_to_fit(); when it began %zu upstream blocks were held, after its end %zu are", blocks0,
+                 mlog().live.size());
+        if (shrink_requested)
+            vf::count("scopes_with_shrink");
         // replay: a new scope at the same place gets the same first address for the same first request
         // (only while the block cache has not been purged: shrink_to_fit() of a scope takes effect when it ends)
         if (first_addr && t.shrinks == shrinks0 && r.chance(60))
@@ -346,6 +357,10 @@ namespace
         for (long c = a.from; c < a.to; ++c)
             run_case(kind, c, [&] {
                 auto     r = case_rng(a.seed, a.group, kind, c);
+                // a scope that does not end cleanly (overlap, corrupted outer allocation, the library's own pointer check firing on
+                // a valid history) violates C14's first sentence as well
+                cx().also     = "C14";
+                cx().also_for = "C01 C06 C16";
                 temp_ctx t;
                 t.r          = &r;
                 t.ops_left   = a.ops;
